@@ -23,6 +23,10 @@ add("C02", E1,
     "Runtime monitor: one prefix (IPv4 and an EVPN type-2 NLRI) in the real Table with candidate paths drawn from small colliding domains (LOCAL_PREF, AS_PATH incl. SET/confed and 255/256/300/510 hops, ORIGIN, roles, stale/LLGR-stale flags and community, CLUSTER_LIST, ORIGINATOR_ID/router-id, MAC-mobility, filtered / next-hop-invalid); an exhaustive step matrix (every pair differing at step k with earlier steps equal), all permutations of up to 5 paths, and random histories (insert/replace/remove/drop/restale/LLGR/purges/next-hop flips) checked after every op against a reference strict-weak order written from the statement: maximal (ties legal), ranked, prefix (top-N and ECMP run), history-free. Debug+release.",
     "Trusted: the reference order (a dozen lines, literal transcription of the statement). ECMP on the EVPN NLRI, MAC-mobility seq 0 vs absent and TableQuery::RsLocal are not judged.",
     "runtime monitoring: reference-order oracle; exhaustive small-domain matrix + permutations + random histories")
+add("C03", E1,
+    "Runtime monitor: 519 seed frames (every message type, 19 families x reach/unreach/EOR x add-path, hand-written templates and encoder output, RTR PDU types 0-11, BFD) x 4.4 M systematic structured mutants (every length field, pairs of disagreeing lengths, truncation at every offset, type/code/flag sweeps, duplication/reordering) + random splices, delivered whole and in random fragments to a replica of run_select's rx loop (try_parse + validate_message) under 53 negotiated codecs, to RtrCodec::decode driven as Framed drives it, and to bfd::Message::decode; clauses no-panic (catch_unwind + panic site), trichotomy, progress, no-stall (a frame complete by the protocol's own length field is consumed or rejected), fragment-independence. Debug+release; ASan + Miri in thorough.",
+    "Trusted: the rx-loop replica (a few lines calling the real functions) and the per-protocol 'complete frame' predicate. A non-returning call is inconclusive (watchdog), never a violation.",
+    "runtime monitoring: structured-mutation fuzzing with panic capture + progress/stall monitors; ASan/Miri passes")
 add("C04", E1,
     "Runtime monitor: Message values over all 19 real address families (entry counts from 0 to several frames, family-maximum NLRI sizes, attribute blocks grown to and past the frame limit, OPENs around the 253-byte limit, values obtained by decoding hand-written wire forms) are encoded by the real encode_to under 256 ordered pairs of capability sets; an independent framer + structural walker checks marker, lengths, negotiated maximum, mutual consistency and frame count; the peer's negotiated codec must decode the same multiset of (prefix, path-id), next hop and attributes up to the documented canonicalisation; decode(encode(x')) is a fixed point. Debug+release, ASan in thorough.",
     "Trusted: the independent walker and the canonicalisation rules (extended-length bit, order, AS4 reconciliation per RFC 6793); lossy cases RFC 6793 itself allows are counted unjudged.",
@@ -47,6 +51,14 @@ add("C19", E1,
     "Runtime monitor (packet level): generated BMP (PeerUp/PeerDown/RouteMonitoring for 19 families, add-path, L/O flags, peer types, 1..113000 NLRI) and MRT (BGP4MP, TABLE_DUMP_V2 peer index + RIB records) events are encoded by the real BmpCodec / MrtCodec / encode_table_dump and read back by independent structural readers written from RFC 7854/8671/9069 and RFC 6396/8050 (lengths, V flag / AFI vs addresses, exactly one PDU per record, peer indexes, entry counts); the embedded PDUs are parsed with the repo's own BGP parser and must give back the monitored prefixes, attributes and next hop. ASan pass in thorough. The daemon-side converters are not part of this check yet.",
     "Trusted: the independent readers; an event is only judged if a plain BGP session codec of the repo round-trips it (otherwise it is C04's subject and counted unjudged).",
     "runtime monitoring: independent structural decoder + round-trip oracle over generated records (ASan in thorough)")
+add("C07", E2,
+    "Runtime monitor: the real PeerFsm and the real ConnArbiter wrapper driven over a 32-symbol alphabet (2 roles x 16 inputs: connect, acceptable / unacceptable OPENs from the real parser, KEEPALIVE, UPDATE, NOTIFICATIONs, ROUTE-REFRESH, timers, disconnect, admin shutdown, update-sent), exhaustively to depth 4 (quick) / 5 (thorough) for local-id {<,=,>} remote-id x 3 hold-time pairs, plus random histories of length 30-200; a 30-line reference FSM run in lock-step decides path, fsm-error (RFC 6608 subcode), idle, at-most-one and collision (survivor + Cease to the loser through the close channel).",
+    "Trusted: the reference FSM written from the statement; anything the statement does not demand is counted unjudged.",
+    "runtime monitoring: exhaustive bounded input-sequence enumeration against a lock-step reference model")
+add("C08", E2,
+    "Runtime monitor: timed input sequences (advance virtual time, OPEN / KEEPALIVE / UPDATE / ROUTE-REFRESH arrival, update-sent) for all 25 hold-time pairs of {0,3,9,90,65535}^2, exhaustively to depth 6 (quick) / 8 (thorough) plus random; the FSM's SetHoldTimer / SetKeepaliveTimer / SessionDown outputs are interpreted by a virtual-time transcription of the driver's timer handling (apply_outputs / flush_tx / run_select); clauses negotiated (min, /3), re-arm (exactly on KEEPALIVE/UPDATE), expiry-iff, zero-disables. Thorough cross-checks five real PeerSessions over loopback (wall-clock, confirm-only).",
+    "Trusted: the ~60-line virtual-time transcription of the driver's timer handling (tokio test-util is not enabled, so real timers cannot be paused).",
+    "runtime monitoring: virtual-time trace checker over exhaustively enumerated timed input sequences")
 add("C09", E2,
     "Runtime monitor: the full source-kind x receiver-role x cluster x confederation matrix (360 cells incl. echo variants) crossed with a covering set + random attribute vectors (every AS_PATH segment type, full 255-AS segment, next-hop kinds, MED, LOCAL_PREF, ORIGINATOR_ID, CLUSTER_LIST, AIGP, communities, opaque attributes, LLGR-stale sources, policy next-hop/MED actions) through both branches of the real process_nlri_change with a recording sink, judged by an expected_export function written from the statement; inbound is_as_loop / rx_update loop checks with the RIB read back; role and cluster-id derivation through accept_connection on TOML neighbour configs.",
     "Trusted: expected_export (Suppress | Send{attrs', nexthop'}); where the statement is silent (RS-client transparency, confed MED/next hop, policy MED on eBGP, LLGR to non-LLGR peers) nothing is judged. Debug profile only (E2).",
@@ -55,6 +67,10 @@ add("C11", E2,
     "Runtime monitor: a real RestartingDeferral in Global.selection_deferral coupled to a real TableManager through the real process_restarting_outputs / gr_selection_deferral_timer_expired (and through PeerSession::process_effects); event sequences over 3 peers x 3 families (PeerEstablished with any family subset, EOR, PeerWithdrawn, TimerExpired) enumerated exhaustively to depth 4 (quick; up to peer renaming) / 5 (thorough) plus random histories to length 40, interleaved with insert_route into deferred and non-deferred families and observed on a registered peer channel; judged by a pending-map model written from the statement: held, release-iff (not early, not late), exactly-once per prefix at release, non-GR peers never block, terminates.",
     "Trusted: the pending-map model; steps the statement leaves undefined are counted unjudged. Timer expiry is an event of the history (the glue function is called directly), not wall-clock.",
     "runtime monitoring: exhaustive bounded event-sequence enumeration + random histories against a reference model, observing the real change stream")
+add("C13", E2,
+    "Runtime monitor: the real RpkiClient::serve_inner over tokio::io::duplex against a conforming-cache model (reset and serial responses, v0/v1 End of Data, Serial Notify, Cache Reset, Error Report, Router Key PDUs, serial / session-id wrap, random fragmentation, connection loss at and inside PDU boundaries, cancel, reconnect, two caches on one TableManager), all PDUs built byte by byte; after every consumed End of Data the VRPs installed for that cache (collect_roa by source) must equal the fold of the cache's responses, the other cache's VRPs are untouched, all are gone after the session ends, and a parked client with a complete PDU unconsumed is a stall. A second workload drives the real try_connect over loopback TCP and cancels it as DisableRpki does.",
+    "Trusted: the cache model (RFC 6810/8210) and the state-based quiescence (client parked with every byte consumed); the client ignoring Cache Reset is counted unjudged.",
+    "runtime monitoring: protocol peer model + fold-of-history oracle at quiescent points")
 add("C17", E2,
     "Runtime monitor: (a) round trip attr_to_api->attr_from_api and nlri_to_api->net_from_api on values obtained by decoding hand-built UPDATEs for all 19 families and attribute kinds; (b) totality: directed + random API messages under catch_unwind, every accepted value checked by an independent validator written from the wire rules and then used (Table insert next to competing paths, apply_import with 13 conditions, RPKI validate, export for 5 roles, encode_to with 2/4-octet AS, display) - a panic there is a violation; (c) store-and-show through the real GrpcService add_path -> list_path -> delete_path for all families.",
     "Trusted: the wire-rule validator and the documented canonicalisations of local_path (ORIGIN/AS_PATH defaults, ORIGINATOR_ID/CLUSTER_LIST/MP_UNREACH dropped, next hop as NEXT_HOP or MP_REACH). In-process calls, no gRPC transport. Debug profile only (E2).",
